@@ -19,6 +19,7 @@ class Decls:
         self.consts = {}     # name -> sort
         self.funs = {}       # name -> (argsorts, ressort)
         self.axioms = []     # global axioms (about UFs), list of (term, note)
+        self.base_heap = {}  # attr -> name of the initial heap array (shared by all snapshots of a run)
 
     def const(self, base, sort, exact=False):
         name = base if exact else fresh_name(base)
@@ -77,6 +78,9 @@ class State:
     def assume(self, term, kind='pc'):
         if term == smt.TRUE:
             return
+        for t, _ in self.pc:
+            if t == term:
+                return
         self.pc.append((term, kind))
 
     def oblige(self, goal, note, lineno=0, kind='safety'):
@@ -97,9 +101,10 @@ class State:
 
     def heap_arr(self, attr):
         if attr not in self.heap:
-            name = self.decls.const('H_' + attr, '(Array Int Val)')
-            self.heap[attr] = name
-            self.heapver[attr] = 0
+            if attr not in self.decls.base_heap:
+                self.decls.base_heap[attr] = self.decls.const('H_' + attr, '(Array Int Val)')
+            self.heap[attr] = self.decls.base_heap[attr]
+            self.heapver.setdefault(attr, 0)
         return self.heap[attr]
 
     def snapshot(self):
